@@ -7,7 +7,6 @@ generic harness body `body` (a Rust path under crate::harness) with the Kani val
 STUB_MEM = [
     ("crate::bus::Bus::read", "crate::harness::mem::bus_read_stub"),
     ("crate::bus::Bus::write", "crate::harness::mem::bus_write_stub"),
-    ("crate::bus::Bus::new", "crate::harness::stubs::bus_new_small"),
 ]
 STUB_CALC = [("crate::cpu::Cpu::calc_state_with_addr", "crate::harness::ghost::ghost_calc_state_with_addr")]
 STUB_FMT = [("std::fmt::format", "crate::harness::stubs::fmt_format")]
@@ -326,22 +325,21 @@ STUB_SOCK = [
 for nm, ks in (("badcmd_store", ("L_CMD_EXTRA", "L_U8", "L_EMPTY")), ("badnum_port", ("L_U8_BAD", "L_IOPORT", "L_EMPTY")),
                ("pause_store", ("L_PAUSE", "L_U8", "L_EMPTY")), ("stop_port", ("L_STOP", "L_IOPORT", "L_EMPTY")),
                ("unknown_store", ("L_UNKNOWN", "L_U8", "L_EMPTY")), ("store_port", ("L_U8", "L_IOPORT", "L_EMPTY"))):
-    add("C18", f"c18_two_lines_{nm}", "c13::socket_lines($S, " + ", ".join("c13::" + k for k in ks) + ", 2, 2)", stubs=(STUB_RUN, STUB_SOCK), unwind=14, native=False,
+    add("PROBE18OLD", f"c18_two_lines_{nm}", "c13::socket_lines($S, " + ", ".join("c13::" + k for k in ks) + ", 2, 2)", stubs=(STUB_RUN, STUB_SOCK), unwind=14, native=False,
         timeout=1800, mem_gb=24)
 
 STUB_ELF = [("crate::elf::read_elf", "crate::harness::c11::ghost_read_elf")]
-for v in (0, 1):
-    add("C11", f"c11_load_skeleton_v{v}", f"c11::load_skeleton($S, {v}, false)", stubs=(STUB_ELF,), unwind=44, timeout=5400, mem_gb=24, tier="quick" if v == 0 else "thorough")
-    add("C12", f"c12_load_skeleton_v{v}", f"c11::load_skeleton($S, {v}, true)", stubs=(STUB_ELF,), unwind=44, timeout=5400, mem_gb=24)
+for v in (0, 1):  # first formulation (memcpy'd image, symbolic argument string): never finished; kept for the record
+    add("PROBE11OLD", f"c11_load_skeleton_v{v}", f"c11::load_skeleton($S, {v}, false)", stubs=(STUB_ELF,), unwind=44, timeout=5400, mem_gb=24, tier="quick" if v == 0 else "thorough")
+    add("PROBE11OLD", f"c12_load_skeleton_v{v}", f"c11::load_skeleton($S, {v}, true)", stubs=(STUB_ELF,), unwind=44, timeout=5400, mem_gb=24)
 
 STUB_LINEFX = [
     ("crate::bus::Bus::write", "crate::harness::c13::ghost_bus_write"),
     ("crate::bus::Bus::write_port", "crate::harness::c13::ghost_write_port"),
-    ("crate::bus::Bus::new", "crate::harness::stubs::bus_new_small"),
 ]
 for which, wn in (("F_U8", "u8"), ("F_IOPORT", "ioport")):
     for nf in (3, 2, 4):
-        add("PROBE18", f"c18_parse_{wn}_fields{nf}", f"c18::parse_fields($S, c18::{which}, {nf})", stubs=(STUB_LINEFX,), unwind=11, native=False, timeout=1200)
+        add("C18", f"c18_parse_{wn}_fields{nf}", f"c18::parse_fields($S, c18::{which}, {nf})", stubs=(STUB_LINEFX,), unwind=11, timeout=1200)
 STUB_SCRIPT = [("crate::socket::Socket::pop_messages", "crate::harness::c18::ghost_pop_script")]
 C18_SCRIPTS = {
     "one_store": [["T_U8"]],
@@ -356,18 +354,36 @@ for nm, rows in C18_SCRIPTS.items():
     add("PROBE18", f"c18_run_{nm}", f"c18::run_script($S, {_script(rows)}, {len(rows)})", stubs=(STUB_RUN, STUB_LINEFX, STUB_SCRIPT), unwind=34, native=False, timeout=1800, mem_gb=20,
         cbmc_args=("--max-field-sensitivity-array-size", "256"))
 
-for nm, uw in (("header", 20), ("program_headers", 20), ("section_headers", 24), ("symbols", 12), ("string_entry", 10)):
-    add("PROBE11", f"c11_parser_{nm}", f"c11p::{nm}($S)", unwind=uw, timeout=900)
 STUB_ELF2 = [("crate::elf::read_elf", "crate::harness::c11::ghost_read_elf_bytewise"),
              ("crate::elf::string_table::parse_string_table_entry", "crate::harness::c11::ghost_string_entry")]
-add("PROBE11M", "c11_loadfs_v0_args0", "c11::load_skeleton_args($S, 0, false, Some(c11::ARGS0))", stubs=(STUB_ELF2,), unwind=562, timeout=2400, mem_gb=24,
-    cbmc_args=("--max-field-sensitivity-array-size", "1024"))
-for v in (0, 1):
-    for ai in (0, 1):
-        add("PROBE11L", f"c11_load_v{v}_args{ai}", f"c11::load_skeleton_args($S, {v}, false, Some(c11::ARGS{ai}))", stubs=(STUB_ELF,), unwind=44, timeout=2400, mem_gb=24)
+FS = ("--max-field-sensitivity-array-size", "1024")
 
-add("PROBE09", "c09_sym_write_probe_nodram", "c09::sym_write_probe($S, 0)", stubs=([("crate::bus::Bus::new", "crate::harness::stubs::bus_new_dram1")],), timeout=1500, mem_gb=20)
-add("PROBE09", "c09_sym_write_probe_dram4k", "c09::sym_write_probe($S, 4096)", stubs=([("crate::bus::Bus::new", "crate::harness::stubs::bus_new_dram4k")],), timeout=1500, mem_gb=20)
+
+def elf_load(prop, name, variant, env, args, memsz, stack, omit, tier="quick"):
+    add(prop, name, f"c11::load_skeleton_args($S, {variant}, {'true' if env else 'false'}, Some(c11::{args}), {memsz}, {stack:#x}, {omit})",
+        stubs=(STUB_ELF2,), unwind=18, timeout=1500, mem_gb=24, cbmc_args=FS, tier=tier)
+
+
+# C11: the real elf::load on concrete layout skeletons (no .stack section), symbolic segment bytes / GOT values
+elf_load("C11", "c11_load_segments_got_v0", 0, False, "ARGS0", 16, 0x1003, 1)
+elf_load("C11", "c11_load_segments_got_v1", 1, False, "ARGS0", 17, 0x1003, 1)
+for nm, uw in (("header", 20), ("program_headers", 20), ("section_headers", 24)):
+    add("C11", f"c11_parser_{nm}", f"c11p::{nm}($S)", unwind=uw, timeout=900)
+# C12: entry / GOT pointer / exit address (no .stack), stack pointer / argument block (no .symtab)
+elf_load("C12", "c12_load_entry_exit_v0", 0, True, "ARGS0", 16, 0x1003, 1)
+elf_load("C12", "c12_load_env_args0_r13", 0, True, "ARGS0", 17, 0x1003, 2)
+elf_load("C12", "c12_load_env_args1_r13", 0, True, "ARGS1", 17, 0x1003, 2)
+elf_load("C12", "c12_load_env_args2_r22", 0, True, "ARGS2", 18, 0x1002, 2)
+elf_load("C12", "c12_load_env_args0_v1_note_last", 1, True, "ARGS0", 16, 0x1003, 2)
+elf_load("C12", "c12_load_env_args0_r31", 0, True, "ARGS0", 19, 0x1001, 2, tier="thorough")
+elf_load("C12", "c12_load_env_args0_r11", 0, True, "ARGS0", 17, 0x1001, 2, tier="thorough")
+elf_load("C12", "c12_load_env_args0_r00", 0, True, "ARGS0", 16, 0x1000, 2, tier="thorough")
+elf_load("C12", "c12_load_env_args1_v1", 1, True, "ARGS1", 18, 0x1003, 2, tier="thorough")
+add("C12", "c12_parser_symbols", "c11p::symbols($S)", unwind=12, timeout=900)
+add("PROBE11", "c11_parser_string_entry", "c11p::string_entry($S)", unwind=10, timeout=900, mem_gb=24)
+
+add("PROBEV", "probe_vec_str_fs", "c11::probe_vec_str($S)", unwind=18, cbmc_args=FS)
+add("PROBEV", "probe_vec_str_plain", "c11::probe_vec_str($S)", unwind=18)
 
 # feasibility probe, not part of any property: ./check PROBE
 add("PROBE", "probe_c14_fold", "c14::probe_fold($S)", stubs=INSTR_STUBS, keep=["trapa"], unwind=6)
